@@ -185,6 +185,14 @@ def run_property(prop, tier, seed, only=None, dump=None):
             crashes.append('%s: native harness crashed: %s' % (u.short, traceback.format_exc(limit=4)))
         cross['functions'] += 1 if tried else 0
         cross['inputs'] += tried
+        ns = getattr(u, '_native_stats', None)
+        if ns is not None:
+            never = sorted(k for k in ns['pre_false'] if k not in ns['ran'] and ns['pre_false'][k] >= 5)
+            cross.setdefault('per_unit', {})[u.short] = {'ran': sum(ns['ran'].values()), 'rejected_by_precondition': sum(ns['pre_false'].values()),
+                                                         'cases_never_replayed': never}
+            if never and not res.error:
+                crashes.append('%s: the run-time replay never got past the precondition for case(s) %s: harness or precondition wrong'
+                               % (u.short, ', '.join(never)))
         if not failed and not res.error:
             if rf is not None:
                 k = match_known(known, u.short, rf['native']['failed'][0])
